@@ -2588,6 +2588,12 @@ def unravel_key_list(keys):
     """Unravels a list of keys."""
     if not is_compiling():
         return unravel_key_list_cpp(keys)
+    if not isinstance(keys, (list, tuple)):
+        # same as the C++ binding, which only has a list and a tuple overload: a str or
+        # a dict must not be iterated over as if it were a sequence of keys
+        raise TypeError(
+            f"unravel_key_list() expects a list or a tuple of nested keys, got {type(keys).__name__}."
+        )
     return [unravel_key(key) for key in keys]
 
 
